@@ -700,7 +700,7 @@ func runC17Concurrent(c c17Case) kit.Result {
 	case <-doneCh:
 	case <-time.After(60 * time.Second):
 		abandon = true
-		res.Err = fmt.Errorf("goroutines did not finish within 60 s (inconclusive: possible deadlock)\nlog:\n%s", strings.Join(history, "\n"))
+		res.Err = fmt.Errorf("the goroutines of a millisecond-scale workload are still stuck after 60 s (deadlock)\nlog:\n%s", strings.Join(history, "\n"))
 		return res
 	}
 	if e := firstErr.Load(); e != nil {
